@@ -890,3 +890,115 @@ def crash_programs_c18(verif_seed, tier):
                 if pr:
                     out.append(pr)
     return out
+
+
+# =========================================================================================
+# Differential histories: the same seeded history with a random subset of its steps removed.
+# In a purely functional API every call that is present in both must return the identical result.
+# =========================================================================================
+def _refs(obj, out):
+    if isinstance(obj, dict):
+        for k in ("slot", "algobj"):
+            if k in obj and isinstance(obj[k], str):
+                out.add(obj[k])
+        for v in obj.values():
+            _refs(v, out)
+    elif isinstance(obj, list):
+        for v in obj:
+            _refs(v, out)
+    return out
+
+
+def thinned(prog, g):
+    """Either a random subset of the steps, or (half of the time) ONE call in isolation: only the steps that
+    produce the operands it needs (transitively) are kept."""
+    import copy
+    p = copy.deepcopy(prog)
+    steps = p["steps"]
+    calls = [s for s in steps if s["op"] == "call"]
+    if calls and g.random() < 0.5:
+        producer = {}
+        for s in steps:
+            if s["op"] == "make":
+                producer.setdefault(s["slot"], s)
+            elif s["op"] == "mkalg":
+                producer.setdefault(s["name"], s)
+            elif s["op"] == "call" and s.get("out"):
+                producer.setdefault(s["out"], s)
+        target = g.choice(calls)
+        need, todo = {target["id"]}, [target]
+        while todo:
+            s = todo.pop()
+            for name in _refs({k: v for k, v in s.items() if k in ("args", "recipe", "kw")}, set()):
+                d = producer.get(name)
+                if d is not None and d["id"] not in need and d["id"] < s["id"]:
+                    need.add(d["id"])
+                    todo.append(d)
+        p["steps"] = [s for s in steps if s["id"] in need or s["op"] == "import"]
+        return p
+    keep = []
+    for st in steps:
+        if st["op"] == "import":
+            keep.append(st)  # importing an optional module may legitimately add dispatch rules
+        elif st["op"] == "make":
+            if g.random() < 0.85:
+                keep.append(st)
+        elif g.random() < 0.7:
+            keep.append(st)
+    p["steps"] = keep
+    return p
+
+
+def phase_diff(run, pool, budget_s):
+    import random
+    from .program import derive_seed, generate
+    t = time.time()
+    pairs = {}
+    conflicts = []
+    n = [0]
+
+    def jobs():
+        i = 0
+        while True:
+            rs = derive_seed(run.seed, "C18-diff", run.tier, i)
+            full = generate("C18", rs, run.tier, {"faults": False})
+            full["want_results"] = True
+            for st in full["steps"]:
+                st.pop("plan", None)
+            thin = thinned(full, random.Random(rs ^ 0x5DEECE66D))
+            for tag, prog in (("full", full), ("thin", thin)):
+                yield {"id": "%d:%s" % (i, tag), "pair": i, "tag": tag, "kind": "program", "program": prog,
+                       "want_program": False, "deadline": 240, "run_seed": rs}
+            i += 1
+
+    progs = {}
+
+    def on(job, res):
+        run.absorb(job, res)
+        d = pairs.setdefault(job["pair"], {})
+        d[job["tag"]] = res.get("call_results") or {}
+        progs.setdefault(job["pair"], {})[job["tag"]] = job["program"]
+        if len(d) == 2:
+            n[0] += 1
+            common = set(d["full"]) & set(d["thin"])
+            run.stats["diff_calls_compared"] += len(common)
+            for key in sorted(common):
+                if d["full"][key] != d["thin"][key] and len(conflicts) < 3:
+                    conflicts.append((key, progs[job["pair"]]["thin"], progs[job["pair"]]["full"], job["run_seed"]))
+            pairs.pop(job["pair"], None)
+            progs.pop(job["pair"], None)
+
+    pool.run(jobs(), on, deadline_s=budget_s,
+             stop_flag=lambda: len(run.violations) >= 5 or len(run.harness) >= 5 or len(conflicts) >= 2)
+    for key, pa, pb, rs in conflicts[:2]:
+        for p in (pa, pb):
+            p.setdefault("config", {})["letters"] = ["seed %s %s" % (rs, "thinned" if p is pa else "full")]
+        run.violations.append(({"kind": "program", "run_seed": "diff:%s" % rs, "id": -1},
+                               {"status": "violation", "program": None, "events_digest": None, "pair": [pa, pb],
+                                "violation": {"property": "C18", "invariant": "I-HISTORY", "step": None, "detail": {
+                                    "what": "the same call on the same operands returned a different result after steps "
+                                            "were removed from the history before it",
+                                    "call": key, "history_a": "thinned history of seed %s" % rs,
+                                    "history_b": "full history of seed %s" % rs}}}))
+    run.phase_info["differential_histories"] = {"pairs": n[0], "calls_compared": int(run.stats.get("diff_calls_compared", 0)),
+                                                "conflicts": len(conflicts), "wall_s": round(time.time() - t, 1)}
